@@ -519,17 +519,35 @@ func (i *Interp) allocSize(v value, site string) int {
 		panic("allocSize")
 	}
 	if !t.IsConst() {
-		// stated bound: symbolic allocation sizes are assumed <= MaxAlloc
+		// stated bound: symbolic allocation sizes are enumerated up to MaxAlloc;
+		// beyond the bound one representative value is explored (sound, incomplete)
 		lim := i.ctx.Const(t.Sort, uint64(i.cfg.MaxAlloc))
-		i.boundAssume(i.ctx.ULE(t, lim), "alloc>"+fmt.Sprint(i.cfg.MaxAlloc))
-		t = i.concretize(t, site)
+		if i.decide(i.ctx.ULE(t, lim), "alloc-in-bound") {
+			t = i.concretize(t, site)
+		} else {
+			i.ex.boundsHit["alloc>"+fmt.Sprint(i.cfg.MaxAlloc)+" (one representative explored)"]++
+			// prefer a modest representative
+			modest := i.ctx.ULE(t, i.ctx.Const(t.Sort, 1<<16))
+			if i.ex.pos >= len(i.ex.prefix) {
+				if r, m := i.check(modest, true); r == smt.Sat {
+					i.ex.model = m
+				} else {
+					i.ex.boundsHit["alloc>65536 (not explored)"]++
+					i.abort(stInfeasible, "allocation beyond 65536 elements not explored")
+				}
+			}
+			t = i.concretizeOne(t, site)
+		}
 	}
 	n := int64(t.C)
 	if t.Sort.W < 64 {
 		// sizes are converted to int by ssa before make; keep as unsigned small
 	}
-	if n < 0 || n > 1<<26 {
+	if n < 0 || n > 1<<47 {
 		i.targetPanicStr("runtime error: makeslice: len out of range")
+	}
+	if n > 1<<24 {
+		i.abort(stInconclusive, fmt.Sprintf("allocation of %d elements is too large to model", n))
 	}
 	return int(n)
 }
